@@ -19,7 +19,7 @@ use proptest::prelude::*;
 use proptest::strategy::BoxedStrategy;
 use std::collections::{BTreeMap, BTreeSet};
 
-const FAMS: &[(u32, Fam)] = &[(4, Fam::U), (3, Fam::K), (2, Fam::L0), (1, Fam::L1), (2, Fam::Lp), (1, Fam::B), (2, Fam::S), (1, Fam::P), (1, Fam::D), (2, Fam::E)];
+const FAMS: &[(u32, Fam)] = &[(4, Fam::U), (3, Fam::K), (2, Fam::L0), (1, Fam::L1), (2, Fam::Lp), (2, Fam::Lb), (1, Fam::B), (2, Fam::S), (1, Fam::P), (1, Fam::D), (2, Fam::E)];
 
 fn strategy(_tier: Tier) -> BoxedStrategy<Case> {
     let base = gen::case_strategy(GenOpts { max_n: 60, big_n_weight: 2, fams: FAMS.to_vec(), max_offset_log2: 10, max_aspect_log2: 6, ..GenOpts::default() });
